@@ -187,11 +187,11 @@ fn props() -> Vec<PropCfg> {
         },
         PropCfg {
             id: "C12",
-            family: "isolation",
+            family: "isolation+isolation+hostile+blockwise",
             level: "exploration",
             quick_runs: 300_000,
             thorough_runs: 5_000_000,
-            rule: "One evaluation = one seeded run of the `isolation` family: 2-3 scripted transfers (uploads incl. upload-then-download, or downloads incl. early negotiation; 2-5 blocks; scripted reply losses with retransmission and duplicated blocks) whose cache keys pairwise differ in exactly one of endpoint / method / path (segmentation [a,b] vs [a/b], prefixes, case, empty path vs one empty segment) are interleaved by a seeded scheduler (uniform or PCT-style priorities with change points; optionally split-phase: request, other clients' exchanges, then application + response), and each is re-run solo against a fresh handler; reply transcripts must be byte-identical. Non-trivial = runs with at least one switch between transfers; distinct = distinct (shape, server-step order) interleavings by 64-bit hash. coverage.reached_vs_possible gives reached/possible for the 2-transfer, non-split shapes (possible = binomial(n1+n2, n1)).",
+            rule: "The first choice picks the family: `isolation` (2 of 4) or `hostile` / `blockwise` (1 of 4 each; there only the reply-ids clause - every reply the handler produces, including error replies and cached blocks, carries the message id and token of the request being answered - is C12's). One evaluation of the `isolation` family: 2-3 scripted transfers (uploads incl. upload-then-download, or downloads incl. early negotiation; 2-5 blocks; scripted reply losses with retransmission and duplicated blocks) whose cache keys pairwise differ in exactly one of endpoint / method / path (segmentation [a,b] vs [a/b], prefixes, case, empty path vs one empty segment) are interleaved by a seeded scheduler (uniform or PCT-style priorities with change points; optionally split-phase: request, other clients' exchanges, then application + response), and each is re-run solo against a fresh handler; reply transcripts must be byte-identical. Non-trivial = runs with at least one switch between transfers; distinct = distinct (shape, server-step order) interleavings by 64-bit hash. coverage.reached_vs_possible gives reached/possible for the 2-transfer, non-split shapes (possible = binomial(n1+n2, n1)).",
             assumptions: &[
                 "the property's quantifier says 'exhaustively enumerated'; this technique samples: exhaustive=false, reached/possible reported per shape",
                 "client behaviour is a function of its materialised script and of the replies it receives (no timers, no latencies in this family)",
@@ -227,10 +227,14 @@ fn run_family(family: &str, ch: &mut Ch, verbose: bool) -> Result<Outcome, Strin
         let parts: Vec<&str> = family.split('+').collect();
         let i = ch.below(parts.len() as u64, "family") as usize;
         let mut o = run_family(parts[i], ch, verbose)?;
-        o.stats.hit(match i {
-            0 => "family.first",
-            1 => "family.second",
-            _ => "family.third",
+        o.stats.hit(match parts[i] {
+            "blockwise" => "family.blockwise",
+            "wire" => "family.wire",
+            "hostile" => "family.hostile",
+            "isolation" => "family.isolation",
+            "observe" => "family.observe",
+            "expiry" => "family.expiry",
+            _ => "family.other",
         });
         return Ok(o);
     }
